@@ -14,16 +14,16 @@ namespace Bermuda
 def Triangle.isSlicewiseDisjoint (t : List Cell) : Bool :=
   (Triangle.slices t).all fun s => Triangle.isDisjoint s.2
 
-abbrev RowKey := Metadata × Period
+abbrev SliceRowKey := Metadata × Period
 
 /-- order of the `(metadata, period)` tuples -/
-def rowKeyCmp : RowKey → RowKey → Ordering :=
+def rowKeyCmp : SliceRowKey → SliceRowKey → Ordering :=
   compareLex (cmpOn (·.1) Metadata.cmp) (cmpOn (·.2) periodCmp)
 
-def Cell.rowKey (c : Cell) : RowKey := (c.md, c.period)
+def Cell.rowKey (c : Cell) : SliceRowKey := (c.md, c.period)
 
 /-- `triangle.slice_period_rows` (the generator, as a list) -/
-def Triangle.slicePeriodRows (t : List Cell) : List (RowKey × List Cell) :=
+def Triangle.slicePeriodRows (t : List Cell) : List (SliceRowKey × List Cell) :=
   ((groupBy Cell.rowKey t).mergeSort fun a b => cmpOn (·.1) rowKeyCmp a b != .gt).map fun p =>
     (p.1, p.2.mergeSort fun a b => cmpOn (·.ev) Date.cmp a b != .gt)
 
